@@ -32,7 +32,14 @@ type WorkerSpec struct {
 	// VerifyReplay: every generated run is executed a second time from its recorded
 	// trace alone (no generator, no PRNG for the steps); the event logs must be equal.
 	VerifyReplay bool `json:"verify_replay"`
+	// MinOncePrefixes: violation classes (by prefix) whose known-finding keys do not need a
+	// minimised trace; only the first violation of each such class is minimised in a
+	// process (every minimisation is hundreds of bubbles, and a process slows down with
+	// every bubble it has ever run).
+	MinOncePrefixes []string `json:"min_once_prefixes"`
 }
+
+var minimisedOnce = map[string]bool{}
 
 func mix(base uint64, i int) uint64 {
 	x := base + uint64(i)*0x9e3779b97f4a7c15
@@ -127,8 +134,20 @@ func TestWorker(t *testing.T) {
 			}
 		}
 		if rr.Violation != nil {
-			if spec.Minimise {
+			skip := false
+			for _, pre := range spec.MinOncePrefixes {
+				if len(rr.Violation.Class) >= len(pre) && rr.Violation.Class[:len(pre)] == pre {
+					if minimisedOnce[rr.Violation.Class] {
+						skip = true
+					}
+					minimisedOnce[rr.Violation.Class] = true
+				}
+			}
+			if spec.Minimise && !skip {
 				rr = MinimiseN(t, p, rr, spec.MinBudgetSec, spec.MinCandidates)
+			} else if skip {
+				rr.Unminimised = true
+				rr.OrigSteps = len(rr.Trace)
 			}
 			if spec.ReplayDir != "" {
 				rr.ReplayPath = WriteReplay(spec.ReplayDir, rr)
